@@ -52,3 +52,108 @@ UNITS = [
          notes='family dispersion table, relative-change convergence test, ridge penalty: +alpha*beta_i on the score and +alpha on the information '
                'diagonal for i >= 1 only; the kernels the scoring iteration is built from (matmul, vops, dot, LU) are run as part of this check'),
 ]
+
+# ---------------------------------------------------------------- score vector and Fisher information of the scoring step
+SCORE_SPEC = r'''
+/// working residual of observation i: w_i (y_i - mu_i) (dmu_i / V_i)
+pub open spec fn wres(w: Seq<f64>, y: Seq<f64>, mu: Seq<f64>, dmu: Seq<f64>, var: Seq<f64>, i: int) -> real {
+    rv(w[i]) * (rv(y[i]) - rv(mu[i])) * (rv(dmu[i]) / rv(var[i]))
+}
+/// sum over the first k observations of x[i,j] * r_i
+pub open spec fn xr_sum(x: Seq<f64>, p: int, j: int, r: Seq<f64>, k: int) -> real decreases k
+{ if k <= 0 { 0real } else { xr_sum(x, p, j, r, k - 1) + rv(at2(x, p, k - 1, j)) * rv(r[k - 1]) } }
+/// dbeta = - X^T r with r the working residuals: the negative score of the family (property C06)
+pub open spec fn is_neg_score(d: Seq<f64>, x: Seq<f64>, p: int, w: Seq<f64>, y: Seq<f64>, mu: Seq<f64>, dmu: Seq<f64>, var: Seq<f64>) -> bool {
+    exists|r: Seq<f64>| r.len() == y.len() && (forall|i: int| 0 <= i < y.len() && rv(var[i]) != 0real ==> rv(#[trigger] r[i]) == wres(w, y, mu, dmu, var, i))
+        && d.len() == p && #[trigger] score_of(d, x, p, r)
+}
+pub open spec fn score_of(d: Seq<f64>, x: Seq<f64>, p: int, r: Seq<f64>) -> bool { forall|j: int| 0 <= j < p ==> rv(#[trigger] d[j]) == -xr_sum(x, p, j, r, r.len() as int) }
+/// working weight of observation i: w_i dmu_i^2 / V_i
+pub open spec fn wwt(w: Seq<f64>, dmu: Seq<f64>, var: Seq<f64>, i: int) -> real { rv(w[i]) * (rv(dmu[i]) * rv(dmu[i])) / rv(var[i]) }
+/// ddbeta = X^T (W X): the Fisher information of the family
+pub open spec fn is_information(h: Seq<f64>, x: Seq<f64>, p: int, n: int, w: Seq<f64>, dmu: Seq<f64>, var: Seq<f64>) -> bool {
+    exists|wx: Seq<f64>| wx.len() == x.len() && (forall|i: int, j: int| 0 <= i < n && 0 <= j < p && rv(var[i]) != 0real ==> rv(#[trigger] at2(wx, p, i, j)) == rv(at2(x, p, i, j)) * wwt(w, dmu, var, i))
+        && #[trigger] is_product(h, x, p, true, wx, p, false, p, n, p)
+}
+'''
+UNWRAP_XN = ('is_matrix(x, n).unwrap()', 'match is_matrix(x, n) { Ok(v_) => v_, Err(_) => ::core::panicking::panic("unwrap") }', 'R2b')
+LENS = 'y@.len() == mu@.len() && y@.len() == dmu@.len() && y@.len() == var@.len() && y@.len() == weights@.len()'
+DB_VALID = '(x@.len() as int) % (y@.len() as int) == 0 && ' + LENS
+dbeta = Fn(IG + 'compute_dbeta', ret='r', level='L1', valid=DB_VALID, panics={1: 'REJECT', 2: 'DEAD'}, rewrites=[UNWRAP_XN],
+           requires=['C06.dbeta.machine:: 0 < y@.len() && x@.len() <= 0x7fff_ffff'],
+           ensures=['C06.dbeta.valid:: ' + DB_VALID,
+                    'C06.dbeta.score:: is_neg_score(r@, x@, (x@.len() as int) / (y@.len() as int), weights@, y@, mu@, dmu@, var@)'],
+           loops={1: {'invariant': ['n == y@.len()', 'n * p == x@.len()', 'x@.len() <= 0x7fff_ffff', 'working_residuals@.len() == n', 'dbeta@.len() == p',
+                                    'C06.dbeta.rows:: forall|j: int| 0 <= j < p ==> rv(#[trigger] dbeta@[j]) == -xr_sum(x@, p as int, j, working_residuals@, i_n as int)']},
+                  2: {'invariant': ['n == y@.len()', 'n * p == x@.len()', 'x@.len() <= 0x7fff_ffff', 'working_residuals@.len() == n', 'dbeta@.len() == p', '0 <= i_n < n',
+                                    'C06.dbeta.done:: forall|j: int| 0 <= j < i_p ==> rv(#[trigger] dbeta@[j]) == -xr_sum(x@, p as int, j, working_residuals@, i_n as int + 1)',
+                                    'C06.dbeta.todo:: forall|j: int| i_p <= j < p ==> rv(#[trigger] dbeta@[j]) == -xr_sum(x@, p as int, j, working_residuals@, i_n as int)'],
+                      'body_start': 'lemma_idx(i_n as int, i_p as int, n as int, p as int);'}},
+           hints=[('let mut dbeta = vec![0.; p];', 'before', 'proof { lemma_mul_div(n as int, p as int); }'),
+                  ('\n                    dbeta\n', 'replace', '\n proof { assert(score_of(dbeta@, x@, p as int, working_residuals@)); '
+                   'assert forall|i: int| 0 <= i < n && rv(var@[i]) != 0real implies rv(#[trigger] working_residuals@[i]) == wres(weights@, y@, mu@, dmu@, var@, i) by { } '
+                   'assert(is_neg_score(dbeta@, x@, p as int, weights@, y@, mu@, dmu@, var@)); }\n dbeta\n')])
+DD_LENS = 'dmu@.len() == var@.len() && dmu@.len() == weights@.len()'
+DD_VALID = '(x@.len() as int) % (dmu@.len() as int) == 0 && ' + DD_LENS
+ddbeta = Fn(IG + 'compute_ddbeta', ret='r', level='L1', valid=DD_VALID, panics={1: 'REJECT'},
+            rewrites=[UNWRAP_XN],
+            requires=['C06.ddbeta.machine:: 0 < dmu@.len() && 0 < x@.len() <= 0x7fff_ffff && ((x@.len() as int) / (dmu@.len() as int)) * ((x@.len() as int) / (dmu@.len() as int)) <= 0x7fff_ffff'],
+            ensures=['C06.ddbeta.valid:: ' + DD_VALID,
+                     'C06.ddbeta.information:: is_information(r@, x@, (x@.len() as int) / (dmu@.len() as int), dmu@.len() as int, weights@, dmu@, var@)'],
+            loops={1: {'invariant': ['n == dmu@.len()', 'n * p == x@.len()', 'x@.len() <= 0x7fff_ffff', 'working_weights@.len() == n', 'weighted_x@.len() == x@.len()',
+                                     'C06.ddbeta.rows:: forall|i: int, j: int| 0 <= i < n && 0 <= j < p ==> rv(#[trigger] at2(weighted_x@, p as int, i, j)) == (if i < i_n { rv(at2(x@, p as int, i, j)) * rv(working_weights@[i]) } else { rv(at2(x@, p as int, i, j)) })']},
+                   2: {'invariant': ['n == dmu@.len()', 'n * p == x@.len()', 'x@.len() <= 0x7fff_ffff', 'working_weights@.len() == n', 'weighted_x@.len() == x@.len()', '0 <= i_n < n',
+                                     'C06.ddbeta.row:: forall|i: int, j: int| 0 <= i < n && 0 <= j < p ==> rv(#[trigger] at2(weighted_x@, p as int, i, j)) == (if i < i_n || (i == i_n && j < i_p) { rv(at2(x@, p as int, i, j)) * rv(working_weights@[i]) } else { rv(at2(x@, p as int, i, j)) })'],
+                       'body_ghost': 'let ghost pre_w = weighted_x@;',
+                       'body_start': 'lemma_idx(i_n as int, i_p as int, n as int, p as int);',
+                       'body_end': ('assert forall|i: int, j: int| 0 <= i < n && 0 <= j < p && !(i == i_n && j == i_p) implies #[trigger] at2(weighted_x@, p as int, i, j) == at2(pre_w, p as int, i, j) by '
+                                    '{ lemma_idx(i, j, n as int, p as int); if i * p + j == i_n * p + i_p { lemma_idx_inj(i, j, i_n as int, i_p as int, p as int); } } '
+                                    'assert(rv(at2(pre_w, p as int, i_n as int, i_p as int)) == rv(at2(x@, p as int, i_n as int, i_p as int))); '
+                                    'assert(at2(weighted_x@, p as int, i_n as int, i_p as int) == f_mul(at2(pre_w, p as int, i_n as int, i_p as int), working_weights@[i_n as int]));')}},
+            hints=[('let mut weighted_x = x.to_vec();', 'before', 'proof { lemma_mul_div(n as int, p as int); }'),
+                   ('for i_n in 0..n', 'before', 'proof { assert(weighted_x@ =~= x@); }'),
+                   ('matmul(x, &weighted_x, n, n, true, false)', 'replace',
+                    '({ let h_ = matmul(x, &weighted_x, n, n, true, false); proof { '
+                    'assert forall|i: int, j: int| 0 <= i < n && 0 <= j < p && rv(var@[i]) != 0real implies rv(#[trigger] at2(weighted_x@, p as int, i, j)) == rv(at2(x@, p as int, i, j)) * wwt(weights@, dmu@, var@, i) by { } '
+                    'assert(is_product(h_@, x@, p as int, true, weighted_x@, p as int, false, p as int, n as int, p as int)); '
+                    'assert(is_information(h_@, x@, p as int, n as int, weights@, dmu@, var@)); } h_ })')])
+from contracts import C15 as c15
+UNITS.append(Unit('C06_score', 'C06', [dbeta, ddbeta], use=[c15.is_matrix, c05.matmul, c04.KERNELS['vmul'], c04.KERNELS['vsub'], c04.KERNELS['vdiv']], types=TYPES, type_spec=core.TYPE_SPEC,
+                  spec=SPEC + SCORE_SPEC, preludes=PRE, broadcast=BC, level='L1', rlimit=100,
+                  notes='compute_dbeta is the negative score -X^T [w (y - mu) dmu / V], compute_ddbeta the Fisher information X^T diag(w dmu^2 / V) X of the scoring step, for every shape; size mismatches rejected'))
+
+# ---------------------------------------------------------------- family tables: variance function, inverse link and its derivative
+FAM_SPEC = r'''
+/// variance function V(mu) of each family (textbook table, property C06)
+pub open spec fn fam_var(f: ExponentialFamily, mu: real) -> real {
+    match f { ExponentialFamily::Gaussian => 1real, ExponentialFamily::Bernoulli => mu * (1real - mu),
+              ExponentialFamily::QuasiPoisson => mu, ExponentialFamily::Poisson => mu, ExponentialFamily::Gamma => mu * mu, ExponentialFamily::Exponential => mu * mu }
+}
+/// inverse of the canonical / log link
+pub open spec fn fam_inv_link(f: ExponentialFamily, eta: real) -> real {
+    match f { ExponentialFamily::Gaussian => eta, ExponentialFamily::Bernoulli => 1real / (1real + r_exp(-eta)), _ => r_exp(eta) }
+}
+/// d mu / d eta expressed through mu
+pub open spec fn fam_dmu(f: ExponentialFamily, mu: real) -> real {
+    match f { ExponentialFamily::Gaussian => 1real, ExponentialFamily::Bernoulli => mu * (1real - mu), _ => mu }
+}
+'''
+RW_BERN = ('&m * (1. - &m)', 'Mul::mul(&m, Sub::sub(1., &m))', 'R17: operators on reference operands written as the trait calls they desugar to')
+variance = Fn(FAM + '{impl ExponentialFamily}::variance', ret='r', level='L1', rewrites=[RW_BERN, ('vmul(&mu, &mu)', 'vmul(mu, mu)', 'R17b: `&mu` with mu: &[f64] auto-derefs to mu')],
+              ensures=['C06.family.variance.len:: r.v@.len() == mu@.len()',
+                       'C06.family.variance:: forall|i: int| 0 <= i < mu@.len() ==> rv(#[trigger] r.v@[i]) == fam_var(*self, rv(mu@[i]))'])
+inv_link = Fn(FAM + '{impl ExponentialFamily}::inv_link', ret='r', level='L1', rewrites=[('(-e).exp()', 'Neg::neg(e).exp()', 'R17: unary minus on a Vector operand written as the trait call')],
+              ensures=['C06.family.inv_link.len:: r.v@.len() == eta@.len()',
+                       'C06.family.inv_link:: forall|i: int| 0 <= i < eta@.len() ==> rv(#[trigger] r.v@[i]) == fam_inv_link(*self, rv(eta@[i]))'],
+              hints=[('1. / (1. + Neg::neg(e).exp())', 'replace',
+                      '({ let o_ = 1. / (1. + Neg::neg(e).exp()); proof { assert forall|i: int| 0 <= i < eta@.len() implies rv(#[trigger] o_.v@[i]) == 1real / (1real + r_exp(-rv(eta@[i]))) by '
+                      '{ ax_exp_pos(-rv(eta@[i])); } } o_ })')])
+d_inv_link = Fn(FAM + '{impl ExponentialFamily}::d_inv_link', ret='r', level='L1', rewrites=[RW_BERN],
+                requires=['C06.family.dmu.lens:: eta@.len() == mu@.len()'],
+                ensures=['C06.family.dmu.len:: r.v@.len() == mu@.len()',
+                         'C06.family.dmu:: forall|i: int| 0 <= i < mu@.len() ==> rv(#[trigger] r.v@[i]) == fam_dmu(*self, rv(mu@[i]))'])
+_vstubs = [f for f in c04.VECTOR_IMPLS if any(h in f.path for h in ('{impl ops::Mul<Vector> for &Vector}', '{impl ops::Sub<&Vector> for f64}', '{impl ops::Add<Vector> for f64}', '{impl ops::Div<Vector> for f64}'))]
+UNITS.append(Unit('C06_families', 'C06', [variance, inv_link, d_inv_link],
+                  use=core.core_stubs() + _vstubs + [c04.vec_neg, c04.KERNELS['vmul']] + [f for f in c04.VECTOR_UNARY if f.path.endswith('::exp')],
+                  types=TYPES, type_spec=core.TYPE_SPEC, spec=SPEC + FAM_SPEC, preludes=PRE, broadcast=BC, level='L1', rlimit=100,
+                  notes='variance function, inverse link and its derivative of the six families equal the textbook table element by element'))
